@@ -29,7 +29,52 @@ func (c05) Assumptions() []string {
 func (c05) NumCases(tier string) int      { return tierN(tier, 2500, 500000) }
 func (c05) MinNontrivial(tier string) int { return tierN(tier, 400, 5000) }
 
+// firstProcessor: post-processor components that are created before every other processor is active (priority-ordered,
+// sorting in front of the built-in processors, in an application without any earlier processor): they, and
+// every ordinary component, are initialised exactly once - AfterPropertiesSet, then Init.
+func (p c05) firstProcessor(c *core.Ctx) {
+	sc := RandomGraph(c.Rng, GraphOpts{MinN: 1, MaxN: 5, Types: world.TypesEagerPlain, PCycle: 0.3, Chords: 1, PUnnamed: 0.3})
+	var extra []any
+	var names []string
+	for k, n := 0, 1+c.Rng.Intn(3); k < n; k++ {
+		name := fmt.Sprintf("priolife%d", k)
+		extra = append(extra, &world.PrioLifePP{LifePP: world.LifePP{Nm: name}, Ord: []int{-3, 0, 1, 2, 7, 1000}[c.Rng.Intn(6)]})
+		names = append(names, name)
+	}
+	r := world.Start(sc, world.Options{Extra: extra, NoObserver: true})
+	c.Count("starts", 1)
+	c.Count("first_processor_starts", 1)
+	detail := failDetail(sc, r, map[string]any{"events": renderEvents(r.Log.Events(), 60)})
+	if r.Outcome() != "ok" {
+		c.Fail("", "start of a satisfiable scenario did not succeed: "+core.Short(r.OutcomeDetail(), 400), detail)
+		return
+	}
+	for i := range sc.Nodes {
+		ti := world.Palette[sc.Nodes[i].Type]
+		if ti.Init {
+			names = append(names, sc.Nodes[i].DisplayName())
+		}
+	}
+	for _, nm := range names {
+		nI, nA := countEvents(r, "init", nm), countEvents(r, "aps", nm)
+		isPP := strings.HasPrefix(nm, "priolife")
+		if nI != 1 || (isPP && nA != 1) {
+			c.Fail("", fmt.Sprintf("component %q: %d Init and %d AfterPropertiesSet call(s) in a start that succeeded, expected exactly one Init%s", nm, nI, nA, map[bool]string{true: " and one AfterPropertiesSet", false: ""}[isPP]), detail)
+			return
+		}
+		if a, i := firstEvent(r, "aps", nm), firstEvent(r, "init", nm); a >= 0 && a > i {
+			c.Fail("", fmt.Sprintf("component %q: Init ran before AfterPropertiesSet", nm), detail)
+			return
+		}
+	}
+	c.Nontrivial("firstprocessor|" + sc.GraphSig() + fmt.Sprint(len(extra)))
+}
+
 func (p c05) Run(c *core.Ctx) {
+	if c.Index%25 == 9 {
+		p.firstProcessor(c)
+		return
+	}
 	if c.Index%25 == 24 {
 		p.mixin(c)
 		return
@@ -104,6 +149,16 @@ func (p c05) Run(c *core.Ctx) {
 			}
 		}
 	}
+	// eager priority-ordered post-processor components, some sorting in front of every built-in processor: they are
+	// created while the chain is still (nearly) empty - and are initialised like any component
+	var prioLife []string
+	if c.Rng.Intn(4) == 0 {
+		for k := 0; k < 1+c.Rng.Intn(2); k++ {
+			name := fmt.Sprintf("priolife%d", k)
+			extra = append(extra, &world.PrioLifePP{LifePP: world.LifePP{Nm: name}, Ord: []int{-3, 0, 1, 2, 7}[c.Rng.Intn(5)]})
+			prioLife = append(prioLife, name)
+		}
+	}
 	// an ordinary eager component that also implements the factory / definition-registry post-processor
 	// interfaces ("factory aware"): it passes through the lifecycle like any component
 	var fa *world.FactoryAwareBare
@@ -145,6 +200,15 @@ func (p c05) Run(c *core.Ctx) {
 	}
 	problems, stats := checkLifecycle(r, npp)
 	problems = append(problems, checkLifePPs(r, lifePPs, npp)...)
+	for _, nm := range prioLife {
+		nI, nA := countEvents(r, "init", nm), countEvents(r, "aps", nm)
+		c.Count("priority_post_processor_components_checked", 1)
+		if nI != 1 || nA != 1 {
+			problems = append(problems, fmt.Sprintf("eager priority-ordered post-processor component %q: %d Init and %d AfterPropertiesSet call(s) in a start that succeeded, expected one each", nm, nI, nA))
+		} else if a, i := firstEvent(r, "aps", nm), firstEvent(r, "init", nm); a > i {
+			problems = append(problems, fmt.Sprintf("post-processor component %q: Init ran before AfterPropertiesSet", nm))
+		}
+	}
 	if fa != nil {
 		for _, k := range []string{"before", "init", "after"} {
 			if n := countEvents(r, k, fa.Nm); n != 1 {
@@ -882,4 +946,13 @@ func (p c05) lazyCandidates(c *core.Ctx) {
 		}
 	}
 	c.Nontrivial("lazycand|" + g.Sc.GraphSig())
+}
+
+func firstEvent(r *world.Run, kind, who string) int {
+	for _, e := range r.Log.Events() {
+		if e.Kind == kind && e.Who == who {
+			return e.Seq
+		}
+	}
+	return -1
 }
